@@ -326,6 +326,473 @@ def c_mpci(rng, fn):
     return Case(fn, margs, thunk, ("ccontain", (px, py, cop)), prec, None, rounded=False, ret_mpf=False, desc=(x, y, op, n))
 
 
+FONE_ = (0, 1, 0, 1)
+
+
+# ---- the outward step of mpi_exp / mpi_log (Algo/Libmpi.v: mpi_outward, mpi_exp_from, mpi_log_from) -------------------
+def _modest_mpf(rng, bits, lo=-30, hi=9):
+    """finite non-zero value of `bits` bits with |value| < 2^hi"""
+    m = gen.mant(rng, bits)
+    t = gen.norm(rng.randrange(2), m, 0)
+    return (t[0], t[1], rng.randint(lo, hi) - t[3], t[3])
+
+
+def c_mpi_outward(rng, fn):
+    """_mpi_outward driven with a stub point function returning a chosen value v"""
+    prec = rng.choice([1, 2, 5, 10, 24, 53, 64, 100, 113, 200, rng.randint(1, 400)])
+    r = rng.choice(["f", "c"])
+    k = rng.randrange(12)
+    if k == 0: v = gen.FZERO
+    elif k == 1: v = gen.FINF
+    elif k == 2: v = gen.FNINF
+    else:
+        v = gen.finite(rng, prec + 20, bits=rng.choice([1, 3, prec + 20, prec + 20, prec + 19, prec + 40]))
+        if not fin(v) or not v[1]:
+            v = FONE_
+        v = (v[0], v[1], v[2] % 4000 - 2000, v[3])
+    x = FONE_
+    exact = None
+    if fin(v) and v[1]:
+        wp = prec + 20
+        up = (bool(v[0]) == (r == "f"))
+        pfac = 1 + Fraction(1, 2 ** (wp - 10)) if up else 1 - Fraction(1, 2 ** (wp - 10))
+        exact = ("v", V(v) * pfac)
+    return Case(fn, list(v) + [prec, RND.index(r)], lambda: call_impl(I._mpi_outward, (lambda _x, _wp, _rnd: v), x, prec, r),
+                exact, prec, r, desc=("outward", v, r))
+
+
+def _expfrom(rng, fn, which):
+    prec = rng.choice([2, 5, 10, 24, 53, 64, 100, 113, 200, rng.randint(2, 300)])
+    bits = lambda: rng.choice([1, 3, 10, prec, prec, 80])
+    if which == "exp":
+        a = _modest_mpf(rng, bits()); b = _modest_mpf(rng, bits())
+        k = rng.randrange(8)
+        if k == 0: a = gen.FZERO
+        if k == 1: b = gen.FZERO
+        if k == 2: b = a
+        if (V(a) if a[1] else 0) > (V(b) if b[1] else 0): a, b = b, a
+    else:
+        a = _modest_mpf(rng, bits(), -40, 40); b = _modest_mpf(rng, bits(), -40, 40)
+        a = (0,) + tuple(a[1:]); b = (0,) + tuple(b[1:])
+        k = rng.randrange(8)
+        if k == 0: a = FONE_
+        if k == 1: b = FONE_
+        if k == 2: b = a
+        if k == 3: a = gen.norm(0, (1 << 60) - rng.randint(1, 9), -60); b = gen.norm(0, (1 << 60) + rng.randint(1, 9), -60)
+        if V(a) > V(b): a, b = b, a
+    s = (a, b)
+    margs = (flat(s) if which == "exp" else []) + [0] * 8 + [prec]
+    off = 8 if which == "exp" else 0
+    rec = {}
+    name = "mpf_exp" if which == "exp" else "mpf_log"
+
+    def thunk():
+        orig = getattr(I, name)
+        def w(x, p, rnd="n"):
+            v = orig(x, p, rnd); rec[rnd] = v; return v
+        setattr(I, name, w)
+        try:
+            out = call_impl(getattr(I, "mpi_" + which), s, prec)
+        finally:
+            setattr(I, name, orig)
+        margs[off:off + 4] = list(rec.get("f", gen.FZERO)); margs[off + 4:off + 8] = list(rec.get("c", gen.FZERO))
+        return out
+    pts = points(rng, s)
+    return Case(fn, margs, thunk, ("elemcontain", which, s, pts, rec), prec, None, rounded=False, ret_mpf=False, desc=(which, s))
+
+
+def c_mpi_exp_from(rng, fn):
+    return _expfrom(rng, fn, "exp")
+
+
+def c_mpi_log_from(rng, fn):
+    return _expfrom(rng, fn, "log")
+
+
+def _elem_enclosure(which, x, wp):
+    """(lo, hi) Fractions enclosing exp(x) / ln(x), x a Fraction: high-precision evaluation on the search side"""
+    import mpmath
+    if (which == "exp" and x == 0) or (which == "log" and x == 1):
+        e = Fraction(1 if which == "exp" else 0)
+        return e, e
+    with mpmath.workprec(wp + 80):
+        X = mpmath.mpf(x.numerator) / x.denominator
+        v = mpmath.exp(X) if which == "exp" else mpmath.log(X)
+        fv = mpf_value(v._mpf_) if v._mpf_[1] else Fraction(0)
+    slack = abs(fv) / 2 ** (wp + 60) + (Fraction(1, 2 ** (wp + 200)) if fv == 0 else 0)
+    return fv - slack, fv + slack
+
+
+def elem_spec(case, out):
+    bad = []
+    _, which, s, pts, rec = case.exact
+    p = out[1:]
+    a, b = tup4(p, 0), tup4(p, 1)
+    wp = case.prec + 20
+    # hypothesis of mpi_exp_contains / mpi_log_contains: the point values are within 2^(9-wp) of the exact ones
+    for rnd, end in (("f", s[0]), ("c", s[1])):
+        if rnd not in rec: continue
+        v = rec[rnd]
+        if not fin(v): 
+            bad.append(("CONTAIN", "point function returned a non-finite value at a finite end point")); continue
+        x = V(end) if end[1] else Fraction(0)
+        lo, hi = _elem_enclosure(which, x, wp)
+        vv = V(v) if v[1] else Fraction(0)
+        err = max(abs(vv - lo), abs(vv - hi))
+        if err * 2 ** (wp - 9) > max(abs(lo), abs(hi)):
+            bad.append(("CONTAIN", "mpf_%s at the working precision is more than 2^(9-wp) (relative) from the exact value: hypothesis of mpi_%s_contains fails" % (which, which)))
+    for x in pts:
+        if which == "log" and x <= 0: continue
+        lo, hi = _elem_enclosure(which, x, wp)
+        if not (in_interval(lo, a, b) and in_interval(hi, a, b)):
+            bad.append(("CONTAIN", "result interval misses %s(%s)" % (which, x))); break
+    for t in (a, b):
+        if not canonical(t): bad.append(("C01", "non-canonical endpoint"))
+    return bad
+
+
+def c_mpi_finalize(rng, fn):
+    """the closure `finalize` of mpi_cos_sin is not callable on its own: it is exercised through mpi_cos_sin_from; this
+    generator drives the model's mpi_finalize against a transcription-free route: mpi_cos_sin on a point interval whose
+    quadrant values are replaced by chosen ones (so finalize sees arbitrary v in [-1, 1] and beyond)"""
+    prec = rng.choice([1, 2, 5, 10, 24, 53, 64, 100, 113, 200, rng.randint(1, 300)])
+    wp = prec + 20
+    def val():
+        k = rng.randrange(8)
+        if k == 0: return gen.FZERO
+        if k == 1: return FONE_
+        if k == 2: return (1, 1, 0, 1)
+        if k == 3: return gen.norm(rng.randrange(2), (1 << wp) - rng.randint(1, 2000), -wp)          # just inside 1
+        if k == 4: return gen.norm(rng.randrange(2), (1 << wp) + rng.randint(1, 2000), -wp)          # just outside 1
+        t = gen.norm(rng.randrange(2), gen.mant(rng, rng.choice([1, 5, wp, wp, wp + 7])), 0)
+        return (t[0], t[1], -t[3] - rng.choice([0, 0, 0, 1, 2, 10, 60, 300]), t[3])
+    c = val(); sn = val(); n = rng.randint(-9, 9)
+    x = _modest_mpf(rng, rng.choice([1, 10, prec]), -5, 5)
+    s = (x, x)
+    margs = flat(s) + list(c) + list(sn) + [n] + list(c) + list(sn) + [n] + [prec]
+
+    def thunk():
+        orig = I.cos_sin_quadrant
+        I.cos_sin_quadrant = lambda _x, _wp: (c, sn, n)
+        try:
+            return call_impl(I.mpi_cos_sin, s, prec)
+        finally:
+            I.cos_sin_quadrant = orig
+    return Case("mpi_cos_sin_from", margs, thunk, None, prec, None, rounded=False, ret_mpf=False, desc=("finalize", c, sn))
+
+
+def c_mpi_cos_sin_from(rng, fn):
+    which = {"mpi_cos_sin_from": "mpi_cos_sin", "mpi_tan_from": "mpi_tan", "mpi_cot_from": "mpi_cot"}[fn]
+    prec = rng.choice([2, 5, 10, 24, 53, 64, 100, 113, 200, rng.randint(2, 300)])
+    k = rng.randrange(12)
+    bits = lambda: rng.choice([1, 3, 10, prec, prec, 80])
+    a = _modest_mpf(rng, bits(), -12, rng.choice([2, 3, 5, 12, 40]))
+    if k == 0: b = a
+    elif k in (1, 2, 3, 4):            # width up to a few quadrants
+        w = _modest_mpf(rng, bits(), -10, 3); w = (0,) + tuple(w[1:])
+        b = L.mpf_add(a, w)
+    elif k == 5: a = gen.FZERO; b = _modest_mpf(rng, bits(), -12, 4); b = (0,) + tuple(b[1:])
+    elif k == 6: b = gen.FZERO; a = _modest_mpf(rng, bits(), -12, 4); a = (1,) + tuple(a[1:])
+    elif k == 7: a = gen.FZERO; b = gen.FZERO
+    elif k == 8: b = gen.FINF
+    elif k == 9: a = gen.FNINF; b = _modest_mpf(rng, bits(), -12, 4)
+    elif k == 10:                       # narrow interval next to a multiple of pi/2
+        import mpmath
+        with mpmath.workprec(prec + 30):
+            m = rng.randint(-40, 40)
+            c0 = (mpmath.pi / 2 * m)._mpf_
+        w = gen.norm(0, rng.randint(1, 1000), -prec - rng.randint(-5, 25))
+        a = L.mpf_sub(c0, w, prec, "f") if c0[1] else (1,) + tuple(w[1:])
+        b = L.mpf_add(c0, w, prec, "c") if c0[1] else w
+    else:
+        b = _modest_mpf(rng, bits(), -12, rng.choice([2, 3, 5, 12, 40]))
+    def val(t):
+        return -math.inf if t == gen.FNINF else math.inf if t == gen.FINF else (V(t) if t[1] else 0)
+    if val(a) > val(b): a, b = b, a
+    s = (a, b)
+    margs = flat(s) + [0] * 18 + [prec]
+    rec = []
+
+    def thunk():
+        orig = I.cos_sin_quadrant
+        def w(x, wp):
+            r = orig(x, wp); rec.append((x, r)); return r
+        I.cos_sin_quadrant = w
+        try:
+            out = call_impl(getattr(I, which), s, prec)
+        finally:
+            I.cos_sin_quadrant = orig
+        if len(rec) == 2:
+            (_, (c1, s1, n1)), (_, (c2, s2, n2)) = rec
+            margs[8:26] = list(c1) + list(s1) + [n1] + list(c2) + list(s2) + [n2]
+        return out
+    pts = points(rng, s) if a != gen.FNINF and b != gen.FINF else [Fraction(rng.randint(-1000, 1000), 7)]
+    return Case(fn, margs, thunk, ("trigcontain", s, pts, rec, which), prec, None, rounded=False, ret_mpf=False, desc=(which, s))
+
+
+def _trig_enclosure(x, wp):
+    """((clo, chi), (slo, shi)) enclosing cos x, sin x for a Fraction x; search side, high precision"""
+    import mpmath
+    if x == 0:
+        return (Fraction(1), Fraction(1)), (Fraction(0), Fraction(0))
+    extra = max(0, abs(x.numerator).bit_length() - x.denominator.bit_length()) + 80
+    with mpmath.workprec(wp + extra):
+        X = mpmath.mpf(x.numerator) / x.denominator
+        c, s_ = mpmath.cos(X), mpmath.sin(X)
+        fc = mpf_value(c._mpf_) if c._mpf_[1] else Fraction(0)
+        fs = mpf_value(s_._mpf_) if s_._mpf_[1] else Fraction(0)
+    sl = Fraction(1, 2 ** (wp + 60))
+    cl = lambda v: max(Fraction(-1), min(Fraction(1), v))          # cos, sin lie in [-1, 1]
+    return (cl(fc - sl * max(abs(fc), sl)), cl(fc + sl * max(abs(fc), sl))), (cl(fs - sl * max(abs(fs), sl)), cl(fs + sl * max(abs(fs), sl)))
+
+
+def trig_spec(case, out):
+    import mpmath
+    bad = []
+    _, s, pts, rec, which = case.exact
+    p = out[1:]
+    quot = which != "mpi_cos_sin"
+    if quot:
+        ca, cb = tup4(p, 0), tup4(p, 1); sa = sb = None
+    else:
+        ca, cb, sa, sb = tup4(p, 0), tup4(p, 1), tup4(p, 2), tup4(p, 3)
+    wp = case.prec + (40 if quot else 20)
+    # hypotheses of mpi_cos_sin_contains: quadrant index and closeness of the point values
+    for x, (c, sn, n) in rec:
+        xv = V(x) if x[1] else Fraction(0)
+        with mpmath.workprec(wp + 200):
+            h = mpmath.pi / 2
+            hlo = mpf_value((h * (1 - mpmath.mpf(2) ** (-wp - 150)))._mpf_); hhi = mpf_value((h * (1 + mpmath.mpf(2) ** (-wp - 150)))._mpf_)
+        lo = min(n * hlo, n * hhi); hi = max((n + 1) * hlo, (n + 1) * hhi)
+        if not (lo <= xv <= hi):
+            bad.append(("CONTAIN", "cos_sin_quadrant returned quadrant %d for a point outside [n pi/2, (n+1) pi/2]" % n))
+        (clo, chi), (slo, shi) = _trig_enclosure(xv, wp)
+        for nm, v, (l_, h_) in (("cos", c, (clo, chi)), ("sin", sn, (slo, shi))):
+            if not fin(v):
+                bad.append(("CONTAIN", "non-finite point value")); continue
+            vv = V(v) if v[1] else Fraction(0)
+            err = max(abs(vv - l_), abs(vv - h_))
+            if err * 2 ** (wp - 9) > max(abs(l_), abs(h_)):
+                bad.append(("CONTAIN", "mpf_cos_sin (%s) at the working precision is more than 2^(9-wp) (relative) from the exact value: hypothesis of mpi_cos_sin_contains fails" % nm))
+    for x in pts:
+        (clo, chi), (slo, shi) = _trig_enclosure(x, wp)
+        if quot:
+            num, den = ((slo, shi), (clo, chi)) if which == "mpi_tan" else ((clo, chi), (slo, shi))
+            if den[0] <= 0 <= den[1]:
+                continue                      # at (or indistinguishable from) a pole: no finite value to contain
+            qs = [n_ / d_ for n_ in num for d_ in den]
+            if not (in_interval(min(qs), ca, cb) and in_interval(max(qs), ca, cb)):
+                bad.append(("CONTAIN", "%s interval misses the value at %s" % (which, x))); break
+            continue
+        if not (in_interval(clo, ca, cb) and in_interval(chi, ca, cb)):
+            bad.append(("CONTAIN", "cos interval misses cos(%s)" % x)); break
+        if not (in_interval(slo, sa, sb) and in_interval(shi, sa, sb)):
+            bad.append(("CONTAIN", "sin interval misses sin(%s)" % x)); break
+    for t in (ca, cb, sa, sb):
+        if t is not None and not canonical(t): bad.append(("C01", "non-canonical endpoint"))
+    return bad
+
+
+# ---- compositions: mpci_abs, mpi_pow (general branch), mpi_cosh_sinh, mpci_exp, mpci_cos, mpci_sin ---------------------
+class _Rec:
+    """records the point-function values the interval code consumes (mpf_exp, mpf_log, cos_sin_quadrant of libmpi)"""
+    def __init__(self):
+        self.exp = {}; self.log = {}; self.quad = []; self.exp_at = {}; self.log_at = {}
+
+    def __enter__(self):
+        self._orig = (I.mpf_exp, I.mpf_log, I.cos_sin_quadrant)
+        oe, ol, oq = self._orig
+        def we(x, p, rnd="n"):
+            v = oe(x, p, rnd); self.exp[rnd] = v; self.exp_at[rnd] = x; return v
+        def wl(x, p, rnd="n"):
+            v = ol(x, p, rnd); self.log[rnd] = v; self.log_at[rnd] = x; return v
+        def wq(x, wp):
+            r = oq(x, wp); self.quad.append((x, r)); return r
+        I.mpf_exp, I.mpf_log, I.cos_sin_quadrant = we, wl, wq
+        return self
+
+    def __exit__(self, *a):
+        I.mpf_exp, I.mpf_log, I.cos_sin_quadrant = self._orig
+
+    def quads(self):
+        out = []
+        for k in range(2):
+            if k < len(self.quad):
+                _, (c, sn, n) = self.quad[k]; out += list(c) + list(sn) + [n]
+            else:
+                out += [0] * 9
+        return out
+
+    def pair(self, d):
+        return list(d.get("f", gen.FZERO)) + list(d.get("c", gen.FZERO))
+
+
+def _small_iv(rng, prec, lo=-12, hi=4, positive=False):
+    bits = lambda: rng.choice([1, 3, 10, prec, prec, 80])
+    a = _modest_mpf(rng, bits(), lo, hi); b = _modest_mpf(rng, bits(), lo, hi)
+    if positive:
+        a = (0,) + tuple(a[1:]); b = (0,) + tuple(b[1:])
+    k = rng.randrange(10)
+    if k == 0: b = a
+    if k == 1 and not positive: a = gen.FZERO
+    if k == 2 and not positive: b = gen.FZERO
+    if k == 3 and not positive: a = b = gen.FZERO
+    if k == 4:
+        w = gen.norm(0, rng.randint(1, 1000), a[2] + a[3] - prec - rng.randint(-3, 20)); b = L.mpf_add(a, w)
+    va = V(a) if a[1] else 0; vb = V(b) if b[1] else 0
+    if va > vb: a, b = b, a
+    return (a, b)
+
+
+def c_compose(rng, fn):
+    prec = rng.choice([2, 5, 10, 24, 53, 64, 100, 113, rng.randint(2, 200)])
+    rec = _Rec()
+    if fn == "mpci_abs":
+        z = (_small_iv(rng, prec, -40, 40), _small_iv(rng, prec, -40, 40))
+        margs = flat(*z) + [prec]
+        def thunk():
+            return call_impl(I.mpci_abs, z, prec)
+        pts = (points(rng, z[0]), points(rng, z[1]))
+        return Case(fn, margs, thunk, ("compose", fn, z, pts, rec), prec, None, rounded=False, ret_mpf=False, desc=(fn, z))
+    if fn == "mpi_pow_from":
+        s_ = _small_iv(rng, prec, -8, 8, positive=True)
+        t_ = _small_iv(rng, prec, -6, 4)
+        if t_[0] == t_[1]:          # a point exponent that is an integer or one half takes another branch
+            t_ = (t_[0], L.mpf_add(t_[1], gen.norm(0, 1, -prec - 2)))
+        margs = flat(t_) + [0] * 16 + [prec]
+        def thunk():
+            with rec:
+                out = call_impl(I.mpi_pow, s_, t_, prec)
+            margs[8:24] = rec.pair(rec.log) + rec.pair(rec.exp)
+            return out
+        pts = (points(rng, s_), points(rng, t_))
+        return Case(fn, margs, thunk, ("compose", fn, (s_, t_), pts, rec), prec, None, rounded=False, ret_mpf=False, desc=(fn, s_, t_))
+    if fn == "mpi_cosh_sinh_from":
+        x = _small_iv(rng, prec, -12, 6)
+        margs = flat(x) + [0] * 8 + [prec]
+        def thunk():
+            with rec:
+                out = call_impl(I.mpi_cosh_sinh, x, prec)
+            margs[8:16] = rec.pair(rec.exp)
+            return out
+        return Case(fn, margs, thunk, ("compose", fn, x, points(rng, x), rec), prec, None, rounded=False, ret_mpf=False, desc=(fn, x))
+    z = (_small_iv(rng, prec, -12, 5), _small_iv(rng, prec, -12, 5))
+    f = {"mpci_exp_from": I.mpci_exp, "mpci_cos_from": I.mpci_cos, "mpci_sin_from": I.mpci_sin}[fn]
+    margs = flat(*z) + [0] * 26 + [prec]
+    def thunk():
+        with rec:
+            out = call_impl(f, z, prec)
+        if fn == "mpci_exp_from":
+            margs[16:42] = rec.pair(rec.exp) + rec.quads()
+        else:
+            margs[16:42] = rec.quads() + rec.pair(rec.exp)
+        return out
+    pts = (points(rng, z[0]), points(rng, z[1]))
+    return Case(fn, margs, thunk, ("compose", fn, z, pts, rec), prec, None, rounded=False, ret_mpf=False, desc=(fn, z))
+
+
+def _hp(fr, wp, f):
+    """enclosure (lo, hi) of f(x) as Fractions: f is evaluated with mpmath at wp + 120 bits (search side)"""
+    import mpmath
+    with mpmath.workprec(wp + 120):
+        v = f(mpmath)
+        t = v._mpf_
+        fv_ = mpf_value(t) if t[1] else Fraction(0)
+    if fv_ == 0:
+        return Fraction(0), Fraction(0)
+    sl = abs(fv_) / 2 ** (wp + 80)
+    return fv_ - sl, fv_ + sl
+
+
+def _mp(m, fr):
+    return m.mpf(fr.numerator) / fr.denominator
+
+
+def _close_ok(v, lo, hi, wp):
+    if not fin(v): return False
+    vv = V(v) if v[1] else Fraction(0)
+    err = max(abs(vv - lo), abs(vv - hi))
+    return err * 2 ** (wp - 9) <= max(abs(lo), abs(hi))
+
+
+def compose_spec(case, out):
+    bad = []
+    _, fn, arg, pts, rec = case.exact
+    p = out[1:]
+    prec = case.prec
+    def monitor_exp(wp):
+        for rnd in ("f", "c"):
+            if rnd in rec.exp:
+                x = rec.exp_at[rnd]; xv = V(x) if x[1] else Fraction(0)
+                lo, hi = _hp(xv, wp, lambda m: m.exp(_mp(m, xv)))
+                if not _close_ok(rec.exp[rnd], lo, hi, wp):
+                    bad.append(("CONTAIN", "mpf_exp at the working precision is more than 2^(9-wp) (relative) off: hypothesis `close` fails"))
+    def monitor_log(wp):
+        for rnd in ("f", "c"):
+            if rnd in rec.log:
+                x = rec.log_at[rnd]; xv = V(x)
+                lo, hi = _hp(xv, wp, lambda m: m.log(_mp(m, xv)))
+                if not _close_ok(rec.log[rnd], lo, hi, wp):
+                    bad.append(("CONTAIN", "mpf_log at the working precision is more than 2^(9-wp) (relative) off: hypothesis `close` fails"))
+    def monitor_quad(wp):
+        import mpmath
+        for x, (c, sn, n) in rec.quad:
+            xv = V(x) if x[1] else Fraction(0)
+            with mpmath.workprec(wp + 200):
+                h = mpmath.pi / 2
+                hlo = mpf_value((h * (1 - mpmath.mpf(2) ** (-wp - 150)))._mpf_); hhi = mpf_value((h * (1 + mpmath.mpf(2) ** (-wp - 150)))._mpf_)
+            if not (min(n * hlo, n * hhi) <= xv <= max((n + 1) * hlo, (n + 1) * hhi)):
+                bad.append(("CONTAIN", "cos_sin_quadrant returned a wrong quadrant index: hypothesis `quad` fails"))
+            (clo, chi), (slo, shi) = _trig_enclosure(xv, wp)
+            if not _close_ok(c, clo, chi, wp) or not _close_ok(sn, slo, shi, wp):
+                bad.append(("CONTAIN", "mpf_cos_sin at the working precision is more than 2^(9-wp) (relative) off: hypothesis `close` fails"))
+    def inside(lohi, k):
+        # the search-side enclosure [lo, hi] of the exact value must meet the result interval (a value within the
+        # enclosure's own slack of an end point is not reported)
+        a, b = tup4(p, 2 * k), tup4(p, 2 * k + 1)
+        if a == gen.FNAN or b == gen.FNAN: return False
+        below = (b != gen.FINF) and (b == gen.FNINF or lohi[0] > (V(b) if b[1] else 0))
+        above = (a != gen.FNINF) and (a == gen.FINF or lohi[1] < (V(a) if a[1] else 0))
+        return not (below or above)
+    if fn == "mpci_abs":
+        for x in pts[0][:4]:
+            for y in pts[1][:4]:
+                n2 = x * x + y * y
+                if not sqrt_in(n2, tup4(p, 0), tup4(p, 1)):
+                    bad.append(("CONTAIN", "mpci_abs misses |%s + %s i|" % (x, y))); return bad
+    elif fn == "mpi_pow_from":
+        monitor_log(prec + 40); monitor_exp(prec + 20)
+        for x in pts[0][:4]:
+            for y in pts[1][:4]:
+                if x <= 0: continue
+                lohi = (Fraction(1), Fraction(1)) if (y == 0 or x == 1) else _hp(x, prec + 20, lambda m: m.exp(_mp(m, y) * m.log(_mp(m, x))))
+                if not inside(lohi, 0):
+                    bad.append(("CONTAIN", "mpi_pow misses %s ** %s" % (x, y))); return bad
+    elif fn == "mpi_cosh_sinh_from":
+        monitor_exp(prec + 40)
+        for x in pts:
+            c = (Fraction(1), Fraction(1)) if x == 0 else _hp(x, prec + 20, lambda m: m.cosh(_mp(m, x)))
+            sh = _hp(x, prec + 20, lambda m: m.sinh(_mp(m, x)))
+            if not inside(c, 0) or not inside(sh, 1):
+                bad.append(("CONTAIN", "mpi_cosh_sinh misses the value at %s" % x)); return bad
+    else:
+        if fn == "mpci_exp_from":
+            monitor_exp(prec + 40); monitor_quad(prec + 40)
+            fr = lambda m, a, b: m.exp(_mp(m, a)) * m.cos(_mp(m, b)); fi = lambda m, a, b: m.exp(_mp(m, a)) * m.sin(_mp(m, b))
+        elif fn == "mpci_cos_from":
+            monitor_quad(prec + 30); monitor_exp(prec + 50)
+            fr = lambda m, a, b: m.cos(_mp(m, a)) * m.cosh(_mp(m, b)); fi = lambda m, a, b: -m.sin(_mp(m, a)) * m.sinh(_mp(m, b))
+        else:
+            monitor_quad(prec + 30); monitor_exp(prec + 50)
+            fr = lambda m, a, b: m.sin(_mp(m, a)) * m.cosh(_mp(m, b)); fi = lambda m, a, b: m.cos(_mp(m, a)) * m.sinh(_mp(m, b))
+        for a in pts[0][:4]:
+            for b in pts[1][:4]:
+                re = _hp(a, prec + 20, lambda m: fr(m, a, b)); im = _hp(a, prec + 20, lambda m: fi(m, a, b))
+                if not inside(re, 0) or not inside(im, 1):
+                    bad.append(("CONTAIN", "%s misses the value at %s + %s i" % (fn, a, b))); return bad
+    return bad
+
+
 GENS = {}
 for _f in ("mpc_add", "mpc_sub", "mpc_mul", "mpc_div"): GENS[_f] = c_mpc_bin
 for _f in ("mpc_square", "mpc_pos", "mpc_neg", "mpc_conjugate", "mpc_reciprocal", "mpc_sqrt", "mpc_abs", "mpc_floor",
@@ -339,6 +806,14 @@ for _f in ("mpi_neg", "mpi_pos", "mpi_abs", "mpi_square", "mpi_sqrt", "mpi_delta
 GENS["mpi_pow_int"] = c_mpi_pow
 for _f in ("mpi_lt", "mpi_le", "mpi_gt", "mpi_ge", "mpi_eq"): GENS[_f] = c_mpi_cmp
 GENS["mpci_op"] = c_mpci
+GENS["mpi_outward"] = c_mpi_outward
+GENS["mpi_exp_from"] = c_mpi_exp_from
+GENS["mpi_log_from"] = c_mpi_log_from
+GENS["mpi_cos_sin_from"] = c_mpi_cos_sin_from
+GENS["mpi_tan_from"] = c_mpi_cos_sin_from
+GENS["mpi_cot_from"] = c_mpi_cos_sin_from
+GENS["mpi_finalize"] = c_mpi_finalize
+for _f in ("mpci_abs", "mpi_pow_from", "mpi_cosh_sinh_from", "mpci_exp_from", "mpci_cos_from", "mpci_sin_from"): GENS[_f] = c_compose
 
 
 def make_cases(rng, fn, n):
@@ -382,6 +857,12 @@ def spec_check(case, out):
     p = out[1:]
     kind = case.exact[0]
     K = 4
+    if kind == "elemcontain":
+        return elem_spec(case, out)
+    if kind == "trigcontain":
+        return trig_spec(case, out)
+    if kind == "compose":
+        return compose_spec(case, out)
     if kind == "cv0":   # conjugate: real part passed through unchanged, imaginary part rounded
         t0, t1 = tup4(p, 0), tup4(p, 1)
         if not ((V(t0) if t0[1] else 0) == case.exact[1][0]): bad.append(("ROUND", "real part changed by conjugate"))
